@@ -418,7 +418,7 @@ def base_index(ctx, P):
     pb = sites(sy, lambda e: e[0] in ("mcall", "vcall") and e[1] == "BaseIndex::ProcessBlock", P)
     ctx.floor("Sync ProcessBlock calls", len(pb), 1)
     for s in pb:
-        fm = s.formula(None)
+        fm = F.unstale(s.formula(None))     # `cur = nxt` between the test and ProcessBlock is checked explicitly below
         arg = call_args(s.expr)[0]
         rws = [a for a in F.atoms(fm) if a.startswith("BaseIndex::Rewind(")]
         ok = False
